@@ -103,17 +103,24 @@ class Write:
         self.key, self.val, self.start, self.end, self.src = key, val, start, end, src
 
 
-def acceptable_values(writes, r_start, r_end):
+def acceptable_values(writes, r_start, r_end, by_completion=False):
     """Values a read [r_start, r_end] of one key may return (DESIGN 3.4): the value of any write overlapping the
     read, or of a completed write that is not *definitely* superseded by another write completed before the read
-    began.  ``writes`` includes the initial state as Write(start=end=NEG_INF).  Unfinished writes have end=POS_INF.
+    began (``by_completion``: or that completed strictly later, for write-through layers over a store with one uniform
+    write latency, where cache order = start order = completion order = store order).  ``writes`` includes the initial state as Write(start=end=NEG_INF).  Unfinished writes have end=POS_INF.
     Returns (set of acceptable values, list of the latest completed writes)."""
     ok = []
     for w in writes:
         if w.start <= r_end and r_start <= w.end:
             ok.append(w)                                      # overlaps the read
         elif w.end <= r_start:
-            if not any(w.end < x.start and x.end < r_start for x in writes if x is not w):   # strict: ties are permissive
+            if by_completion:
+                # stores that apply every write at its completion with one uniform latency: completion order IS the
+                # write order, also between overlapping writes (ties still permissive)
+                sup = any(w.end < x.end and x.end < r_start for x in writes if x is not w)
+            else:
+                sup = any(w.end < x.start and x.end < r_start for x in writes if x is not w)   # strict: ties are permissive
+            if not sup:
                 ok.append(w)
     return ok
 
